@@ -74,7 +74,7 @@ CLAIMED = {
         note=NOTE + "the const-fn evaluation of the hasher by rustc (the hook runs the same function at run time); Key::for_path::<T> checked against the hook on a corpus",
         design="7 (C16)"),
     'C17': dict(
-        text="C17_encode_agrees: for every schema tree s and every tree v of named data-model items that conforms to s (C14's `conforms`), is unambiguous (integers within i64/u64, finite floats, string-keyed maps with ascending keys) and in scope (no embedded-schema kind, nothing nullable directly inside Option, distinct field and variant names), to_stdvec_dyn's model on json_of v (the hand model of serde_json::to_value) returns exactly the static encoder's bytes enc (erase v) - by nested induction over v, using the translated private varint/zig-zag copies (= the core's, C17_private_copies_agree), key-order lemmas for serde_json's sorted maps, and the single float fact narrow (widen b) = b as an explicit hypothesis. The decoding direction (from_slice_dyn bytes = json_of v) is not yet a theorem; it is decided by the direct oracle and the model comparison. Correspondence: for every tested (type, value) the harness checks to_stdvec_dyn(schema, to_value(v)) == to_allocvec(v), from_slice_dyn(schema, bytes) == to_value(v), and against the extracted model: dyn_ser, dyn_de, json_of == to_value on the captured items, in_scope/unamb/conforms all true (so the theorem's hypotheses hold on the tested inputs); 0 disagreements on ~16k cases per quick run.",
+        text="C17_encode_agrees: for every schema tree s and every tree v of named data-model items that conforms to s (C14's `conforms`), is unambiguous (integers within i64/u64, finite floats, string-keyed maps with ascending keys) and in scope (no embedded-schema kind, nothing nullable directly inside Option, distinct field and variant names), to_stdvec_dyn's model on json_of v (the hand model of serde_json::to_value) returns exactly the static encoder's bytes enc (erase v) - by nested induction over v, using the translated private varint/zig-zag copies (= the core's, C17_private_copies_agree), key-order lemmas for serde_json's sorted maps, and the single float fact narrow (widen b) = b as an explicit hypothesis. C17_decode_agrees: under the same hypotheses (plus small_seqs: sequences/maps of at most 65536 elements, which only matters for zero-width elements = known finding F9) from_slice_dyn's model on the static bytes returns exactly json_of v - both directions are theorems for every schema and every conforming value. Correspondence: for every tested (type, value) the harness checks to_stdvec_dyn(schema, to_value(v)) == to_allocvec(v), from_slice_dyn(schema, bytes) == to_value(v), and against the extracted model: dyn_ser, dyn_de, json_of == to_value on the captured items, in_scope/unamb/conforms all true (so the theorem's hypotheses hold on the tested inputs); 0 disagreements on ~16k cases per quick run.",
         note=NOTE + "serde_json (Value, Number, Map ordering, to_value: hand-modelled as json_of and compared on every captured value), the host's float conversions (parameters of the model; OCaml floats in the runner; the theorem assumes only narrow (widen b) = b), the control structure of the two walks (hand-modelled, compared on every run)",
         design="8 (C17)"),
     'C18': dict(
